@@ -374,4 +374,210 @@ theorem uvUnwelded_map_src (R C : Nat) :
     simp only [Nat.add_zero] at e0
     simp only [e0, e1, e2, e3]
 
+/-! ### capped cylinder -/
+
+/-- logical triangles of the capped cylinder, in the order of `cylinderTris S false false`:
+    ring 1 = top rim, ring 2 = bottom rim, `(0,0)` top centre, `(3,0)` bottom centre -/
+def cylL (S : Nat) : List (LP × LP × LP) :=
+  ((List.range S).flatMap fun i =>
+    [ ((2, i), (1, i), (1, (i + 1) % S)), ((2, i), (1, (i + 1) % S), (2, (i + 1) % S)) ])
+  ++ ((List.range S).map fun i => ((1, i), (0, 0), (1, (i + 1) % S)))
+  ++ ((List.range S).map fun k => ((2, (S - 1 - k + 1) % S), (3, 0), (2, S - 1 - k)))
+
+def sideE (S i : Nat) : List (LP × LP) :=
+  [ ((2, i), (1, i)), ((1, i), (1, (i + 1) % S)), ((1, (i + 1) % S), (2, i)),
+    ((2, i), (1, (i + 1) % S)), ((1, (i + 1) % S), (2, (i + 1) % S)), ((2, (i + 1) % S), (2, i)) ]
+
+def topE (S i : Nat) : List (LP × LP) :=
+  [ ((1, i), (0, 0)), ((0, 0), (1, (i + 1) % S)), ((1, (i + 1) % S), (1, i)) ]
+
+def botE (S m : Nat) : List (LP × LP) :=
+  [ ((2, (m + 1) % S), (3, 0)), ((3, 0), (2, m)), ((2, m), (2, (m + 1) % S)) ]
+
+theorem edges_cylL (S : Nat) : edges (cylL S) =
+    (List.range S).flatMap (sideE S) ++ (List.range S).flatMap (topE S)
+      ++ (List.range S).flatMap (fun k => botE S (S - 1 - k)) := by
+  simp only [edges, cylL, List.flatMap_append, List.flatMap_assoc, List.flatMap_map, triEdges, List.flatMap_cons,
+    List.flatMap_nil, List.cons_append, List.nil_append, List.append_nil]
+  rfl
+
+theorem mem_edges_cylL {S : Nat} {e : LP × LP} : e ∈ edges (cylL S) ↔
+    (∃ i, i < S ∧ e ∈ sideE S i) ∨ (∃ i, i < S ∧ e ∈ topE S i) ∨ (∃ m, m < S ∧ e ∈ botE S m) := by
+  simp only [edges_cylL, List.mem_append, List.mem_flatMap, List.mem_range, or_assoc]
+  refine or_congr Iff.rfl (or_congr Iff.rfl ⟨?_, ?_⟩)
+  · rintro ⟨k, hk, h⟩; exact ⟨S - 1 - k, by omega, h⟩
+  · rintro ⟨m, hm, h⟩; exact ⟨S - 1 - m, by omega, by rwa [show S - 1 - (S - 1 - m) = m by omega]⟩
+
+theorem sideE_nodup {S i : Nat} (_hS : 3 ≤ S) (hi : i < S) : (sideE S i).Nodup := by
+  have := nx_spec hi
+  simp only [sideE, List.nodup_cons, List.mem_cons, List.not_mem_nil, Prod.mk.injEq,
+    not_or, List.nodup_nil, not_false_eq_true, and_true]
+  omega
+
+theorem topE_nodup {S i : Nat} (_hS : 3 ≤ S) (hi : i < S) : (topE S i).Nodup := by
+  have := nx_spec hi
+  simp only [topE, List.nodup_cons, List.mem_cons, List.not_mem_nil, Prod.mk.injEq,
+    not_or, List.nodup_nil, not_false_eq_true, and_true]
+  omega
+
+theorem botE_nodup {S i : Nat} (hS : 3 ≤ S) (hi : i < S) : (botE S i).Nodup := by
+  have := nx_spec hi
+  simp only [botE, List.nodup_cons, List.mem_cons, List.not_mem_nil, Prod.mk.injEq,
+    not_or, List.nodup_nil, not_false_eq_true, and_true]
+  omega
+
+theorem cyl_block_disj {S i i' : Nat} (hS : 3 ≤ S) (hi : i < S) (hi' : i' < S) :
+    (i ≠ i' → ∀ e ∈ sideE S i, e ∉ sideE S i') ∧ (i ≠ i' → ∀ e ∈ topE S i, e ∉ topE S i') ∧
+    (i ≠ i' → ∀ e ∈ botE S i, e ∉ botE S i') ∧ (∀ e ∈ sideE S i, e ∉ topE S i') ∧
+    (∀ e ∈ sideE S i, e ∉ botE S i') ∧ (∀ e ∈ topE S i, e ∉ botE S i') := by
+  have := nx_spec hi
+  have := nx_spec hi'
+  simp only [sideE, topE, botE, List.mem_cons, List.not_mem_nil, Prod.mk.injEq,
+    not_or, or_false, forall_eq_or_imp, forall_eq]
+  omega
+
+theorem cylL_nodup {S : Nat} (hS : 3 ≤ S) : (edges (cylL S)).Nodup := by
+  rw [edges_cylL, List.nodup_append, List.nodup_append]
+  refine ⟨⟨?_, ?_, ?_⟩, ?_, ?_⟩
+  · exact nodup_flatMap_range _ _ (fun i hi => sideE_nodup hS hi)
+      (fun i hi i' hi' hne => (cyl_block_disj hS hi hi').1 hne)
+  · exact nodup_flatMap_range _ _ (fun i hi => topE_nodup hS hi)
+      (fun i hi i' hi' hne => (cyl_block_disj hS hi hi').2.1 hne)
+  · intro a ha b hb hab
+    subst hab
+    simp only [List.mem_flatMap, List.mem_range] at ha hb
+    obtain ⟨i, hi, hei⟩ := ha
+    obtain ⟨i', hi', hei'⟩ := hb
+    exact (cyl_block_disj hS hi hi').2.2.2.1 a hei hei'
+  · exact nodup_flatMap_range _ _ (fun k hk => botE_nodup hS (by omega))
+      (fun k hk k' hk' hne => (cyl_block_disj hS (by omega) (by omega)).2.2.1 (by omega))
+  · intro a ha b hb hab
+    subst hab
+    simp only [List.mem_append, List.mem_flatMap, List.mem_range] at ha hb
+    obtain ⟨k, hk, hek⟩ := hb
+    rcases ha with ⟨i, hi, hei⟩ | ⟨i, hi, hei⟩
+    · exact (cyl_block_disj hS hi (show S - 1 - k < S by omega)).2.2.2.2.1 a hei hek
+    · exact (cyl_block_disj hS hi (show S - 1 - k < S by omega)).2.2.2.2.2 a hei hek
+theorem cylL_twin {S : Nat} (hS : 3 ≤ S) : ∀ e ∈ edges (cylL S), (e.2, e.1) ∈ edges (cylL S) := by
+  have sd : ∀ i, i < S → ∀ e ∈ sideE S i, e ∈ edges (cylL S) := fun i hi e he => mem_edges_cylL.2 (Or.inl ⟨i, hi, he⟩)
+  have tp : ∀ i, i < S → ∀ e ∈ topE S i, e ∈ edges (cylL S) := fun i hi e he => mem_edges_cylL.2 (Or.inr (Or.inl ⟨i, hi, he⟩))
+  have bt : ∀ i, i < S → ∀ e ∈ botE S i, e ∈ edges (cylL S) := fun i hi e he => mem_edges_cylL.2 (Or.inr (Or.inr ⟨i, hi, he⟩))
+  intro e he
+  have key : ∀ i, i < S → (e ∈ sideE S i ∨ e ∈ topE S i ∨ e ∈ botE S i) → (e.2, e.1) ∈ edges (cylL S) := by
+    intro i hi h
+    have h1 := nx_spec hi
+    obtain ⟨hp, h2⟩ := pd_spec hi
+    have hn : (i + 1) % S < S := Nat.mod_lt _ (by omega)
+    have sn := sd _ hn; have sp := sd _ hp; have si := sd _ hi
+    have tn := tp _ hn; have tq := tp _ hp; have ti := tp _ hi
+    have bn := bt _ hn; have bp := bt _ hp; have bi := bt _ hi
+    simp only [sideE, topE, botE] at h sn sp si tn tq ti bn bp bi
+    generalize (i + S - 1) % S = p at *
+    generalize (i + 1) % S = n at *
+    simp only [List.mem_cons, List.not_mem_nil, or_false] at h
+    rcases h with (rfl | rfl | rfl | rfl | rfl | rfl) | (rfl | rfl | rfl) | (rfl | rfl | rfl)
+    · exact sp _ (by simp [h2])
+    · exact ti _ (by simp)
+    · exact si _ (by simp)
+    · exact si _ (by simp)
+    · exact sn _ (by simp)
+    · exact bi _ (by simp)
+    · exact tq _ (by simp [h2])
+    · exact tn _ (by simp)
+    · exact si _ (by simp)
+    · exact bn _ (by simp)
+    · exact bp _ (by simp [h2])
+    · exact si _ (by simp)
+  rcases mem_edges_cylL.1 he with ⟨i, hi, h⟩ | ⟨i, hi, h⟩ | ⟨i, hi, h⟩
+  · exact key i hi (Or.inl h)
+  · exact key i hi (Or.inr (Or.inl h))
+  · exact key i hi (Or.inr (Or.inr h))
+
+theorem cylL_noloop {S : Nat} (hS : 3 ≤ S) : ∀ e ∈ edges (cylL S), e.1 ≠ e.2 := by
+  intro e he
+  rcases mem_edges_cylL.1 he with ⟨i, hi, h⟩ | ⟨i, hi, h⟩ | ⟨i, hi, h⟩
+  · have h1 := nx_spec hi
+    simp only [sideE, List.mem_cons, List.not_mem_nil, or_false] at h
+    rcases h with rfl | rfl | rfl | rfl | rfl | rfl <;> simp <;> omega
+  · have h1 := nx_spec hi
+    simp only [topE, List.mem_cons, List.not_mem_nil, or_false] at h
+    rcases h with rfl | rfl | rfl <;> simp <;> omega
+  · have h1 := nx_spec hi
+    simp only [botE, List.mem_cons, List.not_mem_nil, or_false] at h
+    rcases h with rfl | rfl | rfl <;> simp <;> omega
+
+theorem cylL_closed {S : Nat} (hS : 3 ≤ S) : Closed (cylL S) :=
+  ⟨cylL_nodup hS, cylL_twin hS, cylL_noloop hS⟩
+theorem range_map_last {β : Type} (S : Nat) (hS : 1 ≤ S) (f g : Nat → β) (last : β)
+    (h1 : ∀ i, i < S - 1 → f i = g i) (h2 : last = g (S - 1)) :
+    (List.range (S - 1)).map f ++ [last] = (List.range S).map g := by
+  obtain ⟨n, rfl⟩ : ∃ n, S = n + 1 := ⟨S - 1, by omega⟩
+  simp only [Nat.add_sub_cancel] at *
+  rw [List.range_succ, List.map_append, List.map_singleton, h2]
+  congr 1
+  exact List.map_congr_left fun i hi => h1 i (List.mem_range.1 hi)
+
+theorem cylPt_side {S i : Nat} (hS : 1 ≤ S) (hi : i ≤ S) :
+    cylinderPt S (2 * i) = (1, i % S) ∧ cylinderPt S (2 * i + 1) = (2, i % S) := by
+  have a1 : 2 * i < 2 * S + 2 := by omega
+  have a2 : 2 * i + 1 < 2 * S + 2 := by omega
+  have a3 : 2 * i / 2 = i := by omega
+  have a4 : (2 * i + 1) / 2 = i := by omega
+  have a5 : 2 * i % 2 = 0 := by omega
+  have a6 : (2 * i + 1) % 2 = 1 := by omega
+  simp only [cylinderPt, a1, a2, a3, a4, a5, a6, if_true, and_self]
+
+theorem cylPt_top {S k : Nat} (hk : k < S) : cylinderPt S (k + cylinderSideNV S) = (1, k) := by
+  have a1 : ¬ (k + (S * 2 + 2) < 2 * S + 2) := by omega
+  have a2 : k + (S * 2 + 2) < 3 * S + 2 := by omega
+  have a3 : k + (S * 2 + 2) - (2 * S + 2) = k := by omega
+  simp only [cylinderPt, cylinderSideNV, a1, a2, a3, if_true, if_false]
+
+theorem cylPt_topc (S : Nat) : cylinderPt S (S + cylinderSideNV S) = (0, 0) := by
+  have a3 : S + (S * 2 + 2) = 3 * S + 2 := by omega
+  have a1 : ¬ (3 * S + 2 < 2 * S + 2) := by omega
+  have a2 : ¬ (3 * S + 2 < 3 * S + 2) := by omega
+  simp only [cylinderPt, cylinderSideNV, a3, a1, a2, if_true, if_false]
+
+theorem cylPt_bot {S k : Nat} (hk : k < S) :
+    cylinderPt S (k + (cylinderSideNV S + circleNV S)) = (2, (S - k) % S) := by
+  have a1 : ¬ (k + (S * 2 + 2 + (S + 1)) < 2 * S + 2) := by omega
+  have a2 : ¬ (k + (S * 2 + 2 + (S + 1)) < 3 * S + 2) := by omega
+  have a3 : ¬ (k + (S * 2 + 2 + (S + 1)) = 3 * S + 2) := by omega
+  have a4 : k + (S * 2 + 2 + (S + 1)) < 4 * S + 3 := by omega
+  have a5 : k + (S * 2 + 2 + (S + 1)) - (3 * S + 3) = k := by omega
+  simp only [cylinderPt, cylinderSideNV, circleNV, a1, a2, a3, a4, a5, if_true, if_false]
+
+theorem cylPt_botc (S : Nat) : cylinderPt S (S + (cylinderSideNV S + circleNV S)) = (3, 0) := by
+  have a1 : ¬ (S + (S * 2 + 2 + (S + 1)) < 2 * S + 2) := by omega
+  have a2 : ¬ (S + (S * 2 + 2 + (S + 1)) < 3 * S + 2) := by omega
+  have a3 : ¬ (S + (S * 2 + 2 + (S + 1)) = 3 * S + 2) := by omega
+  have a4 : ¬ (S + (S * 2 + 2 + (S + 1)) < 4 * S + 3) := by omega
+  simp only [cylinderPt, cylinderSideNV, circleNV, a1, a2, a3, a4, if_false]
+
+theorem cylinder_map_pt {S : Nat} (hS : 1 ≤ S) :
+    (cylinderTris S false false).map (tmap (cylinderPt S)) = cylL S := by
+  simp only [cylinderTris, cylL, Bool.false_eq_true, if_false, List.map_append, shift, circleTris, List.map_map,
+    List.map_cons, List.map_nil, cylinderSideTris, List.map_flatMap]
+  congr 1
+  congr 1
+  · refine List.flatMap_congr fun i hi => ?_
+    have hi := List.mem_range.1 hi
+    have e0 := @cylPt_side S i hS (by omega)
+    have e1 := @cylPt_side S (i + 1) hS (by omega)
+    have m : i % S = i := Nat.mod_eq_of_lt hi
+    simp only [tmap, show 2 * i + 2 = 2 * (i + 1) by omega, show 2 * i + 3 = 2 * (i + 1) + 1 by omega, e0.1, e0.2,
+      e1.1, e1.2, m]
+  · refine range_map_last S hS _ _ _ (fun i hi => ?_) ?_
+    · simp only [Function.comp, tmap, cylPt_top (show i < S by omega), cylPt_top (show i + 1 < S by omega), cylPt_topc,
+        Nat.mod_eq_of_lt (show i + 1 < S by omega)]
+    · simp only [tmap, cylPt_top (show S - 1 < S by omega), cylPt_top (show 0 < S by omega), cylPt_topc,
+        show S - 1 + 1 = S by omega, Nat.mod_self]
+  · refine range_map_last S hS _ _ _ (fun i hi => ?_) ?_
+    · simp only [Function.comp, tmap, cylPt_bot (show i < S by omega), cylPt_bot (show i + 1 < S by omega), cylPt_botc,
+        show S - 1 - i + 1 = S - i by omega, show S - (i + 1) = S - 1 - i by omega,
+        Nat.mod_eq_of_lt (show S - 1 - i < S by omega)]
+    · simp only [tmap, cylPt_bot (show S - 1 < S by omega), cylPt_bot (show 0 < S by omega), cylPt_botc,
+        show S - 1 - (S - 1) = 0 by omega, Nat.sub_zero, Nat.mod_self, show S - (S - 1) = 0 + 1 by omega]
+
 end PolyVerif.Solids
